@@ -294,11 +294,19 @@ def runHistLine (toks : List String) (rest : String) : String :=
     | some (.prime p) => runHist (.prime p) (primeOps p) uSpec bSpec (snapS == "1") ops extraPrimes
     | some (.bin n m) =>
       -- optional fourth component: the variable name given to binfield.SetVarName (hex)
-      let var := match fd.splitOn ":" with
+      let var := match (fds.headD "").splitOn ":" with
         | [_, _, _, v] => unhex v
         | _ => "a"
-      runHist (.bin n m) (binOps n m var) uSpec bSpec (snapS == "1") ops
-    | some (.ext p n g) => runHist (.ext p n g) (extOps p n g) uSpec bSpec (snapS == "1") ops
+      -- `B:3:11,B:4:19`: further binary fields (of other degrees) as field objects 1, 2, …
+      let extraBins := (fds.drop 1).filterMap fun d => match parseFieldDesc d with
+        | some (.bin n' m') => some (binOps n' m')
+        | _ => none
+      runHist (.bin n m) (binOps n m var) uSpec bSpec (snapS == "1") ops extraBins
+    | some (.ext p n g) =>
+      let extraExts := (fds.drop 1).filterMap fun d => match parseFieldDesc d with
+        | some (.ext p' n' g') => some (extOps p' n' g')
+        | _ => none
+      runHist (.ext p n g) (extOps p n g) uSpec bSpec (snapS == "1") ops extraExts
     | none => "bad-field"
   | _ => "bad-hist-header"
 
